@@ -787,6 +787,7 @@ def check(ctx, case):
 
 def search(ctx):
     _q()
-    # per worker (quick: 2 workers, thorough: 16); a meta case is 12-30 reconstructions (~80 ms), an analytic one ~10 ms
-    core.run_given(ctx, "meta", meta_cases(), lambda c: check(ctx, c), ctx.n(200, 4000))
-    core.run_given(ctx, "analytic", analytic_cases(), lambda c: check(ctx, c), ctx.n(350, 8000))
+    # per worker (quick: 2 workers, thorough: 16 -> 19 200 meta + 64 000 analytic cases); a meta case is 12-35
+    # reconstructions (~0.1 s), an analytic one ~10 ms
+    core.run_given(ctx, "meta", meta_cases(), lambda c: check(ctx, c), ctx.n(200, 1200))
+    core.run_given(ctx, "analytic", analytic_cases(), lambda c: check(ctx, c), ctx.n(350, 4000))
